@@ -72,8 +72,8 @@ TARGETS = [
     # ---- iov_iterator and _copy_pipe_iov
     Target('iovec_pluseq', CPP, r'inline void operator\+=\(iovec& v, size_t nbytes\)', rules=[
         (r'\(char\*&\)v\.iov_base \+= nbytes;', 'v->iov_base = (char*)v->iov_base + nbytes;', 1), (r'\bv\.', 'v->', 1)]),
-    Target('it_ctor', CPP, r'iov_iterator\(iovector_view v\) : _iov\(v\.iov\), _v\(v\.iov\[0\]\), _iovcnt\(v\.iovcnt\)', rules=[
-        (r'^\{', '{ this->_iov = v.iov; this->_v = v.iov[0]; this->_iovcnt = v.iovcnt;', 1)]),
+    Target('it_ctor', CPP, r'iov_iterator\(iovector_view v\)\s*(?=:)', init_list=True, rules=[
+        (r'v\.iov\[0\]', 'IOV_RD(v, 0)', 1), (r'iovec\{nullptr, 0\}', '(struct iovec){0, 0}', 0), (r'iovec\{\}', '(struct iovec){0, 0}', 0), (r'\biovec\(\)', '(struct iovec){0, 0}', 0)]),
     Target('it_empty', CPP, r'bool empty\(\) const (?=\{ return _iovcnt == 0; \})', rules=[fields_rule(['_iovcnt'])]),
     Target('it_front', CPP, r'iovec front\(\) const (?=\{ return _v; \})', rules=[fields_rule(['_v'])]),
     Target('it_pluseq', CPP, r'iov_iterator& operator \+= \(size_t n\)', rules=[
@@ -124,6 +124,8 @@ PROOFS = [
     Proof('bounded/slice_n2', 'iov.c', 'h_slice', kind='B', backend='cadical', defines=['NMAX=2', 'BOUNDED_LOOPS'], unwind=5, bound='at most 2 source elements and 2 output slots, any lengths / offset / count', timeout=900, checks=CHECKS),
     Proof('bounded/extract_back_copy_n2', 'iov.c', 'h_extract_back_copy', kind='B', backend='cadical', defines=['NMAX=2', 'BOUNDED_LOOPS'], unwind=5, bound='at most 2 elements, any lengths and byte count', timeout=1800, tier='thorough', checks=CHECKS),
     Proof('bounded/slice_n3', 'iov.c', 'h_slice', kind='B', backend='cadical', defines=['NMAX=3', 'BOUNDED_LOOPS'], unwind=6, bound='at most 3 source elements and 3 output slots, any lengths / offset / count', timeout=3000, tier='thorough', checks=CHECKS),
+    Proof('bounded/memcpy_iov_n2', 'iov.c', 'h_memcpy_iov', kind='B', backend='cadical', defines=['NMAX=2', 'BOUNDED_LOOPS'], unwind=8, bound='at most 2 destination and 2 source elements, any lengths and byte count', timeout=3600, tier='thorough', checks=CHECKS),   # ~48 min
+    Proof('iov_iterator/ctor', 'iov.c', 'h_it_ctor', kind='L', min_obligations=4, **CV),
     Proof('lemma/pre_mono', 'iov.c', 'lemma_pre_mono', kind='L', min_obligations=3, **CV),
 ]
 NATIVES = [Native('native', 'native.cpp', args_quick=[300000], args_thorough=[20000000], timeout=1800, link_photon=True)]
